@@ -1,5 +1,5 @@
 (* C16 — the main loop of lex_commented: invariant, termination within the fuel, final theorems. *)
-From SwayV Require Import Base.Util C16.Model C16.Spec C16.Judge C16.ProofsBase C16.ProofsLex.
+From SwayV Require Import Base.Util C16.Model C16.Spec C16.Join C16.Judge C16.ProofsBase C16.ProofsLex.
 Open Scope N_scope.
 
 Lemma open_delim_len c d : open_delim c = Some d -> len_utf8 c = 1.
@@ -324,11 +324,18 @@ Qed.
 
 Lemma judge_parse_accepts cf nb s tab wm il ip :
   snd (judge cf nb s tab wm il ip) = 0 ->
-  exists ok spans, ip = IParse ok spans 0 /\ Forall (span_ok s) spans.
+  exists ok spans, ip = IParse ok spans 0 /\ Forall (span_ok s) spans /\
+    Forall (derived (gens_cheap il ++ gens_eos (ucls_of tab) (indices 0 s) il)) spans.
 Proof.
   unfold judge. cbn [snd]. destruct ip as [ok spans fb|]; [|discriminate].
-  destruct (forallb _ _) eqn:EF; cbn [negb]; [|discriminate].
+  destruct (forallb _ spans) eqn:EF; cbn [negb]; [|discriminate].
   destruct (N.eqb_spec fb 0) as [->|]; cbn [negb]; [|discriminate].
-  intros _. exists ok, spans. split; [reflexivity|]. apply Forall_forall. intros sp Hin. rewrite forallb_forall in EF.
-  specialize (EF sp Hin). rewrite span_okb_fast_eq in EF. apply span_okb_iff. exact EF.
+  destruct (forallb (diag_derivedb _ _ _) spans) eqn:ED; cbn [negb]; [|discriminate].
+  intros _. exists ok, spans. split; [reflexivity|]. split.
+  - apply Forall_forall. intros sp Hin. rewrite forallb_forall in EF.
+    specialize (EF sp Hin). rewrite span_okb_fast_eq in EF. apply span_okb_iff. exact EF.
+  - apply Forall_forall. intros sp Hin. rewrite forallb_forall in ED. specialize (ED sp Hin).
+    unfold diag_derivedb in ED. apply orb_true_iff in ED. destruct ED as [ED|ED].
+    + eapply derived_mono; [|apply derivedb_sound; exact ED]. apply incl_appl. apply incl_refl.
+    + apply derivedb_sound. exact ED.
 Qed.
